@@ -30,7 +30,7 @@ class Form(dict):
         return r
 
     def is_const(self):
-        return all(a == '1' for a in self)
+        return all(a == '1' or v == 0 for a, v in self.items())
 
     def const(self):
         return self.get('1', 0.0)
@@ -41,7 +41,8 @@ def const_form(x):
 
 
 class LinEval:
-    def __init__(self, state, loops, args=None, deliver=True):
+    def __init__(self, state, loops, args=None, deliver=True, nlreg=None):
+        self.nlreg = nlreg      # shared across the steps of a transient run: {'n': counter, 'shift': {atom: coef}, 'problems': [..]}
         self.s = state          # cell -> int | bool | Form | list[Form] | ('some', v) | ('none',)
         self.loops = loops
         self.args = args or {}
@@ -53,14 +54,62 @@ class LinEval:
         self.deliver = deliver
         self.problems = []
 
-    def opaque(self, t, why):
+    def opaque(self, t, why, shift=None):
+        """Fresh atom for a sub-result outside the linear-form domain. `shift` is its shift coefficient (how the value moves
+        when every input is replaced by x + b: value + shift·b), None when unknown / not affine in b."""
         key = id(t)
         if key in self.nl_terms and self.nl_terms[key][0] is t:
             return Form({self.nl_terms[key][1]: 1.0})
-        self.nl += 1
-        name = 'nl:%d:%s' % (self.nl, why)
+        if self.nlreg is not None:
+            self.nlreg['n'] += 1
+            name = 'nl:%d:%s' % (self.nlreg['n'], why)
+            self.nlreg['shift'][name] = shift
+        else:
+            self.nl += 1
+            name = 'nl:%d:%s' % (self.nl, why)
         self.nl_terms[key] = (t, name)
         return Form({name: 1.0})
+
+    def shift(self, v):
+        """Shift coefficient of a value (see opaque), or None."""
+        if isinstance(v, (int, bool)) or v is None:
+            return 0.0
+        if isinstance(v, tuple) and v and v[0] == 'some':
+            return self.shift(v[1])
+        if not isinstance(v, Form):
+            return None
+        tot = 0.0
+        for a, c in v.items():
+            if c == 0:
+                continue
+            if a == '1':
+                continue
+            if a == 'u' or (a.startswith('u') and a[1:].isdigit()):
+                tot += c
+            elif a.startswith('nl:') or a.startswith('u:'):
+                k_ = (self.nlreg or {}).get('shift', {}).get(a)
+                if k_ is None:
+                    return None
+                tot += c * k_
+            else:
+                return None
+        return tot
+
+    def inv(self, *vs):
+        """0.0 if every operand is shift-invariant, else None (a non-linear function of a moving quantity is not affine in b)."""
+        for v in vs:
+            k_ = self.shift(v)
+            if k_ is None or abs(k_) > 1e-9:
+                return None
+        return 0.0
+
+    def same_shift(self, *vs):
+        ks = [self.shift(v) for v in vs]
+        if any(k_ is None for k_ in ks):
+            return None
+        if max(ks) - min(ks) > 1e-9:
+            return None
+        return ks[0]
 
     def ev(self, t):
         if self.mu or self.idx:
@@ -93,16 +142,16 @@ class LinEval:
                 return bool(t[1])
             if isinstance(t[1], (int, float)):
                 return const_form(t[1])
-            return self.opaque(t, 'lit')
+            return self.opaque(t, 'lit', 0.0)
         if k == 'sentinel':
-            return self.opaque(t, 'sentinel')
+            return self.opaque(t, 'sentinel', 0.0)
         if k == 'const':
             consts = {'std::f64::consts::PI': math.pi, 'std::f32::consts::PI': math.pi, 'std::f64::consts::E': math.e,
                       'std::f64::consts::TAU': 2 * math.pi, 'std::f64::consts::SQRT_2': math.sqrt(2.0),
                       'std::f64::consts::FRAC_PI_2': math.pi / 2, 'std::f64::consts::LN_2': math.log(2.0)}
             if t[1] in consts:
                 return const_form(consts[t[1]])
-            return self.opaque(t, 'const')
+            return self.opaque(t, 'const', 0.0)
         if k == 'in':
             if t[1] in self.s:
                 return self.s[t[1]]
@@ -114,6 +163,8 @@ class LinEval:
         if k == 'child':
             return Form({'u:%s' % t[1]: 1.0}) if t[1] in self.s.get('#internal', ()) else Form({'u': 1.0})
         if k == 'childlast':
+            if t[1] in self.s.get('#internal', ()):
+                return ('some', Form({'u:%s' % t[1]: 1.0}))
             return ('some', Form({'u': 1.0})) if self.deliver else ('none',)
         if k == 'some':
             return ('some', self.ev(t[1]))
@@ -139,9 +190,9 @@ class LinEval:
             if _same(a, b):
                 return a
             if isinstance(a, Form) or isinstance(b, Form):
-                return self.opaque(t, 'datadep-select')
+                return self.opaque(t, 'datadep-select', self.same_shift(a, b))
             if isinstance(a, tuple) and isinstance(b, tuple) and a and b and a[0] == 'some' and b[0] == 'some':
-                return ('some', self.opaque(t, 'datadep-select'))
+                return ('some', self.opaque(t, 'datadep-select', self.same_shift(a[1], b[1])))
             self.problems.append('undecided select of non-float values: %s' % tstr(t[1])[:60])
             return a
         if k == 'len':
@@ -206,7 +257,12 @@ class LinEval:
                 return s[0] if k == 'front' else s[-1]
             return self.opaque(t, 'empty')
         if k == 'reduce':
-            return self.opaque(t, 'reduce')
+            try:
+                elems = self.ev(t[2])
+            except NonConst:
+                elems = None
+            sh = self.same_shift(*elems) if isinstance(elems, list) and elems and t[1] in ('max', 'min') else None
+            return self.opaque(t, 'reduce', sh)
         if k == 'mu':
             return self.mu[(t[1], t[2])]
         if k == 'idx':
@@ -296,6 +352,22 @@ class LinEval:
             try:
                 x, y = self.num(a[0]), self.num(a[1])
             except NonConst:
+                # two forms that are identical atom by atom are equal whatever the inputs are
+                try:
+                    xv, yv = self.ev(a[0]), self.ev(a[1])
+                    if isinstance(xv, Form) and isinstance(yv, Form):
+                        dz = xv.plus(yv, -1.0)
+                        if all(c_ == 0 for c_ in dz.values()):
+                            return {'eq': True, 'ne': False, 'lt': False, 'le': True, 'gt': False, 'ge': True}[n]
+                except NonConst:
+                    pass
+                if self.nlreg is not None:
+                    try:
+                        xv, yv = self.ev(a[0]), self.ev(a[1])
+                        if (isinstance(xv, Form) or isinstance(yv, Form)) and self.same_shift(xv, yv) is None:
+                            self.nlreg.setdefault('problems', []).append('comparison %s moves with a common offset of the inputs' % tstr(t)[:90])
+                    except NonConst:
+                        pass
                 return None
             return {'eq': x == y, 'ne': x != y, 'lt': x < y, 'le': x <= y, 'gt': x > y, 'ge': x >= y}[n]
         if n == 'not':
@@ -333,7 +405,7 @@ class LinEval:
                     return y.scale(x.const())
                 if y.is_const():
                     return x.scale(y.const())
-            return self.opaque(t, 'product')
+            return self.opaque(t, 'product', self.inv(x, y))
         if n == 'div':
             x, y = self.ev(a[0]), self.ev(a[1])
             if isinstance(x, Form) and isinstance(y, Form) and y.is_const():
@@ -342,7 +414,7 @@ class LinEval:
                     self.problems.append('division by a zero coefficient')
                     return self.opaque(t, 'div0')
                 return x.scale(1.0 / d)
-            return self.opaque(t, 'quotient')
+            return self.opaque(t, 'quotient', self.inv(x, y))
         if n == 'powi':
             x = self.ev(a[0])
             try:
@@ -353,7 +425,7 @@ class LinEval:
                 return const_form(x.const() ** kx)
             if kx == 1:
                 return x
-            return self.opaque(t, 'power')
+            return self.opaque(t, 'power', self.inv(x))
         if n in ('exp', 'cos', 'sin', 'sqrt', 'ln', 'tanh', 'abs', 'tan'):
             x = self.ev(a[0])
             if isinstance(x, Form) and x.is_const():
@@ -364,9 +436,17 @@ class LinEval:
                 except (ValueError, OverflowError):
                     self.problems.append('%s(%s) is not finite' % (n, c))
                     return self.opaque(t, n)
-            return self.opaque(t, n)
+            return self.opaque(t, n, self.inv(x))
         if n in ('is_finite', 'is_nan'):
             return None
+        if n in ('max', 'min') and len(a) == 2:
+            x, y = self.ev(a[0]), self.ev(a[1])
+            return self.opaque(t, n, self.same_shift(x, y))
+        if n == 'clamp' and len(a) == 3:
+            x, lo, hi = self.ev(a[0]), self.ev(a[1]), self.ev(a[2])
+            return self.opaque(t, n, self.same_shift(x, lo, hi))
+        if n in ('signum', 'floor', 'ceil', 'round', 'trunc', 'recip', 'powf', 'log2', 'log10', 'cosh', 'sinh', 'atan', 'asin', 'acos'):
+            return self.opaque(t, n, self.inv(*[self.ev(x_) for x_ in a]))
         return self.opaque(t, n)
 
 
@@ -693,7 +773,24 @@ def _rename_u(v, name):
     return v
 
 
-def transient(m, ctor, args, K):
+def _merge_alternatives(ev, cell, vals, problems, k):
+    first = vals[0]
+    if all(_same(v, first) for v in vals[1:]):
+        return first
+    if all(isinstance(v, Form) for v in vals):
+        return ev.opaque(('alt', cell, k, id(vals)), 'datadep-exit', ev.same_shift(*vals))
+    if all(isinstance(v, tuple) and v and v[0] == 'some' and isinstance(v[1], Form) for v in vals):
+        return ('some', ev.opaque(('alt', cell, k, id(vals)), 'datadep-exit', ev.same_shift(*[v[1] for v in vals])))
+    if all(isinstance(v, list) for v in vals) and len({len(v) for v in vals}) == 1:
+        return [_merge_alternatives(ev, '%s[%d]' % (cell, j), [v[j] for v in vals], problems, k) for j in range(len(first))]
+    if all(isinstance(v, (int, bool)) for v in vals):
+        problems.append('step %d: integer cell %s depends on the data' % (k, cell))
+        return first
+    problems.append('step %d: cell %s takes structurally different values on data-dependent exits' % (k, cell))
+    return first
+
+
+def transient(m, ctor, args, K, reg=None):
     """Abstract execution in the linear-form domain from the constructor's initial state: the k-th delivered value is
     the symbol u<k>; integer cells, lengths and presence are concrete (they are functions of the configuration and of k
     only), float cells are linear forms over u0..u<k>.  Returns (outputs, problems): outputs[k] is the Form reported by
@@ -702,7 +799,7 @@ def transient(m, ctor, args, K):
     if not mms:
         return None, ['no constructor %s' % ctor]
     mm = mms[0]
-    ev0 = LinEval({}, mm['vg'].loops, args)
+    ev0 = LinEval({}, mm['vg'].loops, args, nlreg=reg)
     for c in mm['pre']:
         try:
             if ev0.ev(c) is False:
@@ -721,13 +818,40 @@ def transient(m, ctor, args, K):
     problems += ev0.problems
     outs = []
     for k in range(K):
-        ev = LinEval(state, m.up_vg.loops)
-        chosen = None
+        ev = LinEval(state, m.up_vg.loops, nlreg=reg)
+        if reg is not None:
+            # outputs of internal children: shift-invariant as long as everything fed to them is
+            for cp, feeds in m.up_vg.child_fed.items():
+                for pc_, arg_, node_ in feeds:
+                    if arg_[0] == 'arg':
+                        continue
+                    name_ = 'u:%s' % cp
+                    live = True
+                    for c_ in pc_:
+                        if isinstance(c_, tuple) and c_ and c_[0] != 'inloop':
+                            try:
+                                if ev.ev(c_) is False:
+                                    live = False
+                                    break
+                            except NonConst:
+                                pass
+                    if not live:
+                        continue      # this feed is not executed in this step
+                    try:
+                        fed_shift = ev.inv(ev.ev(arg_))
+                    except NonConst:
+                        fed_shift = None
+                    prev_ = reg['shift'].get(name_, 0.0)
+                    reg['shift'][name_] = 0.0 if (fed_shift == 0.0 and prev_ == 0.0) else None
+            state = dict(state)
+            state['#internal'] = tuple(cp for cp, feeds in m.up_vg.child_fed.items() if any(a_[0] != 'arg' for _, a_, _ in feeds))
+        from .terms import nondelivering
+        feas_exits = []
         for ex in m.up_exits:
-            from .terms import nondelivering
             if nondelivering(ex.pc, ('view',)):
                 continue
             feas = True
+            decided = True
             for c in ex.pc:
                 if isinstance(c, tuple) and c and c[0] == 'inloop':
                     continue
@@ -738,21 +862,37 @@ def transient(m, ctor, args, K):
                 if val is False:
                     feas = False
                     break
+                if val is not True:
+                    decided = False
             if feas:
-                chosen = ex
-                break
-        if chosen is None:
+                feas_exits.append(ex)
+                if decided:
+                    break
+        if not feas_exits:
             problems.append('step %d: no feasible exit' % k)
             break
-        new_state = dict(state)
-        for cell, t in chosen.fields.items():
-            try:
-                new_state[cell] = ev.ev(t)
-            except NonConst:
-                problems.append('step %d: cannot evaluate %s' % (k, cell))
+        if reg is None:
+            feas_exits = feas_exits[:1]
+        cand = []
+        for ex in feas_exits:
+            ns = dict(state)
+            for cell, t in ex.fields.items():
+                try:
+                    ns[cell] = ev.ev(t)
+                except NonConst:
+                    problems.append('step %d: cannot evaluate %s' % (k, cell))
+            cand.append(ns)
+        if len(cand) == 1:
+            new_state = cand[0]
+        else:
+            # which exit is taken depends on the data: every cell becomes a data-dependent selection among the alternatives
+            new_state = dict(state)
+            for cell in set().union(*[set(c_) for c_ in cand]):
+                vals = [c_.get(cell, state.get(cell)) for c_ in cand]
+                new_state[cell] = _merge_alternatives(ev, cell, vals, problems, k)
         problems += ['step %d: %s' % (k, p) for p in ev.problems]
         state = {c: _rename_u(v, 'u%d' % k) for c, v in new_state.items()}
-        ev2 = LinEval(state, m.last_vg.loops)
+        ev2 = LinEval(state, m.last_vg.loops, nlreg=reg)
         try:
             out = ev2.ev(m.last_ret)
         except NonConst:
@@ -763,7 +903,9 @@ def transient(m, ctor, args, K):
             out = None
         if out is not None and not isinstance(out, Form):
             out = 'nl'
-        if isinstance(out, Form) and any(a.startswith('nl:') for a in out):
+        if isinstance(out, Form) and any(a.startswith('nl:') for a in out) and reg is None:
             out = 'nl'
+        if reg is not None and isinstance(out, Form):
+            out = ('shift', ev2.shift(out), out)
         outs.append(out)
     return outs, problems
